@@ -893,6 +893,7 @@ class TimePDF(
             raise TypeError(
                 'The livetime property must be an instance of Livetime!')
         self._livetime = lt
+        self._update_time_axis_and_S()
 
     @property
     def time_flux_profile(self):
@@ -909,6 +910,23 @@ class TimePDF(
                 'TimeFluxProfile! '
                 f'Its current type is {classname(profile)}!')
         self._time_flux_profile = profile
+        self._update_time_axis_and_S()
+
+    def _update_time_axis_and_S(self):
+        """Keeps the time axis and the normalization S consistent with the
+        live-time and the time flux profile, when one of them gets replaced
+        after the PDF has been constructed.
+        """
+        if not hasattr(self, '_S'):
+            # The PDF is still under construction. The constructor defines
+            # the time axis and calculates S.
+            return
+
+        time_axis = self._axes['time']
+        time_axis.vmin = self._livetime.time_window[0]
+        time_axis.vmax = self._livetime.time_window[1]
+
+        self._S = self._calculate_sum_of_ontime_time_flux_profile_integrals()
 
     def __str__(self):
         """Pretty string representation of the time PDF.
